@@ -188,4 +188,80 @@ theorem depRun_inv {sites : List Site} (h : sitesSafe sites = true) (keep : Nat)
     rw [List.foldl_cons]
     exact ih _ (depStep_inv h keep slash st e hi)
 
+/-! Round 8c — on the repaired code (`consult = true`) a history whose operator stops are answered by `consensus.Peers`
+    and that never removes the peer while it is down stays INSIDE the statement: the K17a situation (removed by another
+    member, stopped before the watch round) is no exclusion any more. -/
+
+theorem doShutdown_keeps (keep : Nat) (slash : Bool) (st : PSt) (p r : Bool) :
+    (doShutdown keep slash st p r).outside = st.outside ∧ (doShutdown keep slash st p r).consult = st.consult :=
+  ⟨rfl, rfl⟩
+
+theorem fire_keeps (sites : List Site) (keep : Nat) (slash : Bool) (t : Trig) (st : PSt) (p r : Bool) :
+    (fire sites keep slash t st p r).outside = st.outside ∧ (fire sites keep slash t st p r).consult = st.consult := by
+  unfold fire
+  simp only
+  split_ifs
+  · exact ⟨rfl, rfl⟩
+  · exact ⟨rfl, rfl⟩
+
+theorem depStep_inside (sites : List Site) (keep : Nat) (slash : Bool) (st : PSt) (e : DEv)
+    (hc : st.consult = true) (ho : st.outside = false) (ha : e.answered = true)
+    (hd : (e.isRmo && st.f.shutdown && st.member) = false) :
+    (depStep sites keep slash st e).outside = false ∧ (depStep sites keep slash st e).consult = true := by
+  cases e with
+  | removedByOther =>
+    simp only [depStep]
+    split_ifs with hs
+    · have hm : st.member = false := by simpa [DEv.isRmo, hs] using hd
+      simp [ho, hm, hc]
+    · exact ⟨ho, hc⟩
+  | selfRemove ok p r =>
+    simp only [depStep]
+    split_ifs
+    · exact ⟨ho, hc⟩
+    · have := fire_keeps sites keep slash .selfRemoved { st with member := false } p r
+      exact ⟨this.1.trans ho, this.2.trans hc⟩
+  | tick pk p r =>
+    simp only [depStep]
+    split_ifs
+    · exact ⟨ho, hc⟩
+    · have := fire_keeps sites keep slash .absent st p r
+      exact ⟨this.1.trans ho, this.2.trans hc⟩
+  | stop p r =>
+    have hp : p = true := ha
+    subst hp
+    simp only [depStep]
+    split_ifs
+    · exact ⟨ho, hc⟩
+    · have := doShutdown_keeps keep slash { st with outside := st.outside || (!st.member && !(st.consult && true)) } true r
+      refine ⟨this.1.trans ?_, this.2.trans hc⟩
+      simp [ho, hc]
+  | write sn =>
+    simp only [depStep]
+    split_ifs
+    · exact ⟨ho, hc⟩
+    · exact ⟨ho, hc⟩
+  | restart =>
+    simp only [depStep]
+    split_ifs
+    · exact ⟨ho, hc⟩
+    · exact ⟨ho, hc⟩
+    · exact ⟨ho, hc⟩
+
+theorem depRun_inside (sites : List Site) (keep : Nat) (slash : Bool) :
+    ∀ (evs : List DEv) (st : PSt), st.consult = true → st.outside = false →
+      evs.all DEv.answered = true → removedWhileDown sites keep slash st evs = false →
+      (depRun sites keep slash st evs).outside = false := by
+  intro evs
+  induction evs with
+  | nil => intro st _ ho _ _; exact ho
+  | cons e es ih =>
+    intro st hc ho ha hd
+    rw [List.all_cons, Bool.and_eq_true] at ha
+    simp only [removedWhileDown, Bool.or_eq_false_iff] at hd
+    have hstep := depStep_inside sites keep slash st e hc ho ha.1 hd.1
+    unfold depRun
+    rw [List.foldl_cons]
+    exact ih _ hstep.2 hstep.1 ha.2 hd.2
+
 end CV.C17
